@@ -104,7 +104,7 @@ Definition postz (z : bool) (k : Z) (o : dopts) (l l' : lst) (oc : outcome) : Pr
                 (zlen (l_src l') < zlen (l_src l) \/
                  (k = 1 /\ zlen (l_src l') = zlen (l_src l) /\ rank (d_stage (l_s l')) = 0))
   | Stop h => wf (l_s l') /\ (h = 0 \/ prog o l l')
-  | Ret v => safe (l_s l') /\ (v < 0 \/ (z = true /\ zlen (l_src l) = 0 /\ wf (l_s l')))
+  | Ret v => safe (l_s l') /\ (v < 0 \/ (z = true /\ zlen (l_src l) = 0 /\ wf (l_s l') /\ 0 < v))
   end.
 Notation post := (postz false).
 
@@ -186,7 +186,7 @@ Lemma decodeHeader_cases s b src s' r :
       Z.land (rd32 src) SKIP_MASK = FD_MAGIC_SKIPPABLE_START)
   \/ (b = false /\ r = 4 /\ FD_minFHSize <= zlen src /\ d_stage s' = GetSFrameSize)
   \/ (d_stage s' = StoreFrameHeader /\ d_tmpInSize s' = zlen src /\ zlen src < d_tmpInTarget s' <= FD_header_array_size /\
-      FD_minFHSize <= zlen src /\
+      FD_minFHSize <= zlen src /\ r = zlen src /\
       (b = true -> d_header s' = d_header s) /\ rd32 src = FD_MAGICNUMBER /\
       exists FLG bm bc cs cc di, nth_error src 4 = Some FLG /\ flg_decode FLG = inr (bm, bc, cs, cc, di) /\
                                  fh_size cs di = d_tmpInTarget s')
@@ -793,7 +793,7 @@ Proof.
       * unfold FD_minFHSize, FD_header_array_size in *. lia.
       * exfalso. rewrite K2 in Dm. exact (magic_not_skippable Dm).
     + destruct D as (D & _). discriminate D.
-    + destruct D as (Dst & Dsz & Dt & D7 & Dh & Dm & FLG & bm & bc & cs & cc & di & N4 & EF & FS).
+    + destruct D as (Dst & Dsz & Dt & D7 & _ & Dh & Dm & FLG & bm & bc & cs & cc & di & N4 & EF & FS).
       rewrite Dst. rewrite Dsz.
       destruct Hkeep as [K|(K1 & K2 & FLG2 & bm2 & bc2 & cs2 & cc2 & di2 & N42 & EF2 & FS2)].
       * split; [lia|]. split; [lia|]. right. rewrite (Dh eq_refl). ss. fold hdr'.
@@ -828,7 +828,7 @@ Proof.
   - apply Z.leb_gt in E.
     destruct (zlen (l_src l) =? 0) eqn:E0.
     { apply Z.eqb_eq in E0. ss. split; [acct_tac|]. ss. split; [safe_tac|]. right.
-      split; [reflexivity|]. split; [exact E0|]. unfold wf, stage_inv; ss.
+      split; [reflexivity|]. split; [exact E0|]. split; [|reflexivity]. unfold wf, stage_inv; ss.
       rewrite Hst. repeat split; auto; try al_tac. }
     apply Z.eqb_neq in E0.
     apply post_weaken.
@@ -982,7 +982,7 @@ Lemma run_post o : forall fuel l l' f,
   (mu l < Z.of_nat fuel -> f <> FFuel) /\
   match f with
   | FStop h => wf (l_s l') /\ (h = 0 \/ prog o l l')
-  | FRet v => v < 0 \/ (zlen (l_src l) = 0 /\ d_stage (l_s l) = GetFrameHeader /\ wf (l_s l'))
+  | FRet v => v < 0 \/ (zlen (l_src l) = 0 /\ d_stage (l_s l) = GetFrameHeader /\ wf (l_s l') /\ 0 < v)
   | FFuel => True
   end.
 Proof.
@@ -1062,7 +1062,7 @@ Proof.
     intros H1 H2 H3. destruct P as [P|P]; [auto|].
     unfold prog, l0 in P; ss. specialize (P H1 H2 H3). lia.
   - split; [reflexivity|]. split; [exact O|]. split; [lia|]. split; [lia|]. split; [lia|]. split.
-    + destruct R as [R|(_ & _ & R)]; auto.
+    + destruct R as [R|(_ & _ & R & _)]; auto.
     + intros H1 _ _. destruct R as [R|(R & _)]; [auto|]. unfold l0 in R; ss. lia.
 Qed.
 
@@ -1136,7 +1136,7 @@ Proof.
   destruct D as [D|[D|[D|[D|D]]]]; try lia.
   - destruct D as (_ & -> & D7 & Dst). split; [unfold FD_minFHSize in *; lia|]. right.
     unfold wf, stage_inv. rewrite Dst. repeat split; auto; congruence.
-  - exfalso. destruct D as (_ & _ & Dt & D7 & _ & Dm & FLG & bm & bc & cs & cc & di & N4 & EF & FS).
+  - exfalso. destruct D as (_ & _ & Dt & D7 & _ & _ & Dm & FLG & bm & bc & cs & cc & di & N4 & EF & FS).
     unfold FD_minFHSize in D7.
     rewrite rd32_ztake in Dm by lia. rewrite nth_error_ztake in N4 by lia.
     pose proof (headerSize_fh src FLG bm bc cs cc di EH Dm N4 EF). lia.
